@@ -55,6 +55,9 @@ def _expand(sort, out):
         _expand(sort[1], out)
         for p in sort[2]:
             _expand(p, out)
+    if sort[0] == "CUSTOM" and len(sort) > 2:
+        for p in sort[2]:            # an instance of a parametric sort: its arguments occur too
+            _expand(p, out)
 
 
 def ref_types(w, n):
